@@ -802,6 +802,19 @@ impl<'a> Runner<'a> {
             .header("Content-Type", CT_HISTORY)
             .body_chunks((0..n).map(|i| vec![b'k' + i as u8; 30 + i * 7]).collect());
         req.fail_after = Some(1 + self.rng.usize(n - 1));
+        if self.mon.facts && !self.mon.cas {
+            // C14: an upload that could not be read completely has no protocol outcome to encode
+            let resp = self.subj.http(&req);
+            self.cov.evaluations += 1;
+            self.cov.hit(format!("broken-upload:status={}", resp.status));
+            if (200..300).contains(&resp.status) {
+                self.v("C14", format!(
+                    "an AddVersion(parent={latest}) whose body transfer broke off after {:?} of {n} chunks was answered {} on {}: the response encodes an acceptance although no complete request was received (the library was never given these bytes)",
+                    req.fail_after, resp.describe(), self.subj.kind.name()
+                ));
+            }
+            return;
+        }
         let before = self.dump();
         let resp = self.subj.http(&req);
         self.cov.evaluations += 1;
@@ -1370,7 +1383,7 @@ impl<'a> Runner<'a> {
             if self.mon.snapget && self.subj.kind.entry == Entry::Http && !self.subj.kind.socket && self.rng.pct(8) {
                 self.mon_broken_snapshot(c);
             }
-            if self.mon.cas && self.subj.kind.entry == Entry::Http && !self.subj.kind.socket && self.clients[c].touched && self.rng.pct(12) {
+            if (self.mon.cas || self.mon.facts) && self.subj.kind.entry == Entry::Http && !self.subj.kind.socket && self.clients[c].touched && self.rng.pct(if self.mon.cas { 12 } else { 5 }) {
                 self.mon_broken_upload(c);
             }
             // (outside C18 at a low rate as well: a refused request is a no-op for every property)
